@@ -46,6 +46,19 @@
         the normalized attribute values do not depend on the oracle) follow from those of the canonical
         tree, which [valid] demands.  Proofs/XmlWFSyntaxRender{Node,Check,Doc}.v.  Acceptance then follows
         from (e).
+    (g) round 2 -- THE FULL STATEMENTS [render_wf] AND [parse_render] ARE REFUTED AS WRITTEN, by a document with a
+        DOCTYPE ([render_wf_refuted], [denote_refuted]): [valid] admits an internal subset that declares an entity
+        with the NAME of a predefined one and another replacement text (<!ENTITY lt "x">: [decl_ok] only asks
+        for an NCName), while [render] may write the predefined reference &lt; for the character `<`
+        (oracle 2 at that position); the specification then expands the DECLARED entity (first declaration
+        binds), so the attribute value read back is "x" instead of "<".  Witness [ex_redeclared]:
+          <!DOCTYPE a [<!ENTITY lt "x">]><a xmlns:q="x" xmlns:p="&lt;" q:k="2" p:k="1"/>
+        is not namespace-well-formed (duplicate expanded name) although its abstract document is valid, and
+        its infoset differs from [denote].  This is a gap in the DEFINITION of the profile (Spec/Infoset.v
+        [valid]), not a defect of the implementation: the real crates and the model agree with the
+        specification on this text (value "x"; accepted as finding WFNS23 says).  A statement for documents
+        with a DOCTYPE needs the extra hypothesis that no declared entity is named lt, gt, amp, apos or quot
+        (or that [valid] demands it); the generator of checks/C01.py never produces such a declaration.
     Not proved: documents WITH a document type declaration -- the DTD rung of [render_wf] (renderings of
     the declarations read back by the specification, the constraints with declared entities and defaulted
     attributes) and the converse (e) for the internal subset -- and, for all documents, [parse_render]
@@ -166,6 +179,26 @@ Definition ex_adoc : adoc :=
 Example nodoctype_valid_nonvacuous : valid ex_adoc = true /\ a_doctype ex_adoc = None.
 Proof. split; [vm_compute; reflexivity|reflexivity]. Qed.
 
+(** ** (g) the full statements are refuted by a redeclared predefined entity *)
+(* <!DOCTYPE a [<!ENTITY lt "x">]> <a xmlns:p="<" xmlns:q="x" p:k="1" q:k="2"/> *)
+Definition ex_redeclared : adoc :=
+  {| a_version := None; a_encoding := None; a_standalone := None; a_misc1 := [];
+     a_doctype := Some {| ad_name := [97]%N; ad_pub := None; ad_sys := None; ad_subset := Some [ADEntity [108;116]%N [IText [120]%N]] |};
+     a_misc2 := [];
+     a_root := AElem [97]%N [([120;109;108;110;115;58;112]%N, [IText [60]%N]); ([120;109;108;110;115;58;113]%N, [IText [120]%N]);
+                              ([112;58;107]%N, [IText [49]%N]); ([113;58;107]%N, [IText [50]%N])] [];
+     a_misc3 := [] |}.
+
+Theorem render_wf_refuted : exists d c, valid d = true /\ ok_choices d c = true /\ wf (render d c) = false.
+Proof. exists ex_redeclared, (fun _ => 2%N). split; [vm_compute; reflexivity|]. split; [reflexivity|vm_compute; reflexivity]. Qed.
+
+Theorem denote_refuted : exists d c, valid d = true /\ ok_choices d c = true /\
+  wf_xml10 (render d c) = true /\ infoset_of_string (render d c) <> Some (Infoset.denote d).
+Proof.
+  exists ex_redeclared, (fun _ => 2%N). split; [vm_compute; reflexivity|]. split; [reflexivity|]. split; [vm_compute; reflexivity|].
+  vm_compute. intros H. discriminate H.
+Qed.
+
 Example rendered_nontrivial :
   comment_ok [32;97;45;98;32]%N = true /\ pi_ok [112;105]%N (Some [120;63;32;62]%N) = true.
 Proof. split; vm_compute; reflexivity. Qed.
@@ -185,3 +218,5 @@ Print Assumptions wellformed_nodoctype_is_accepted_partial.
 Print Assumptions render_node_reads.
 Print Assumptions render_wf_nodoctype_partial.
 Print Assumptions rendered_nodoctype_is_accepted_partial.
+Print Assumptions render_wf_refuted.
+Print Assumptions denote_refuted.
